@@ -35,6 +35,7 @@ def strategy(draw, tier):
     case['a_exp'] = draw(st.one_of(st.integers(-40, 40), st.sampled_from([-30, -20, -3, 1, 3, 20, 30])))
     case['c_exp'] = draw(st.sampled_from([-4, -3, -2, -1, 1, 2, 3, 4]))
     case['reuse_options'] = draw(st.integers(0, 2)) == 0
+    case['inplace'] = draw(st.integers(0, 2)) == 0
     return case
 
 
@@ -90,6 +91,17 @@ def check(case, rec):
         pipeline.trusted_burst_mask(cs, x)
     rate = pipeline.analyse(cs, x)
     compare('rate', base_b, rate, 1)
+    if case.get('inplace') and not int_scaling:
+        # the caller rescales its OWN array in place (unit conversion) and analyses the same object again
+        import warnings
+        from bycycle.features import compute_features
+        buf = np.array(x, dtype=float, copy=True)
+        with warnings.catch_warnings():
+            warnings.simplefilter('ignore')
+            first = guarded(compute_features, buf, case['fs'], tuple(case['f_range']), **gen.cf_kwargs(case))
+            buf *= a
+            second = guarded(compute_features, buf, case['fs'], tuple(case['f_range']), **gen.cf_kwargs(case))
+        compare('amplitude-in-place', first, second, a)
     if case.get('reuse_options'):
         # a caller who keeps ONE set of option dictionaries and analyses the same samples under both unit conventions
         import warnings
